@@ -26,6 +26,7 @@ OPS = {
     "MkField": ("n", 3), "MkFieldAny": ("a", 2), "FieldFull": ("v", 2), "FieldCast": ("f", 1),
     "FieldVal": ("f", 1), "FieldRaw": ("f", 1), "FieldAsNumpy": ("f", 1), "FieldValRw": ("f", 1),
     "FieldAsNumpyRw": ("f", 1), "FieldAdd": ("ff", 2), "FieldClone": ("f", 3), "MkDiag": ("f", 2),
+    "FieldNeg": ("f", 4),
 }
 EXN = {"ValueError": "EValue", "TypeError": "EType", "IndexError": "EIndex"}
 
@@ -193,6 +194,10 @@ class Runner:
                 raise RuntimeError("generator must not combine fields on different domains")
             h = (f + g) if var == 0 else f.unite(g)
             return ("fld", self.reg_field(h, True))
+        if k == "FieldNeg":
+            f = flds[a[0]]
+            g = [lambda: -f, lambda: f * (-1), lambda: (-1) * f, lambda: f.scale(-1)][var]()
+            return ("fld", self.reg_field(g, True))
         if k == "FieldClone":
             import copy
             import pickle
@@ -327,6 +332,8 @@ def systematic():
         "FieldClone_pickle": [mk("NewArr", [1, 2]), mk("MkField", 0, var=1), mk("FieldClone", 0, var=0)],
         "FieldClone_deepcopy": [mk("FieldFull", 3), mk("FieldClone", 0, var=2)],
         "FieldFull": [mk("FieldFull", 3)],
+        "FieldNeg": [mk("NewArr", [1, 2]), mk("MkField", 0, var=1), mk("FieldNeg", 0, var=0)],   # attack -f
+        "FieldNeg_scalar": [mk("FieldFull", 3), mk("FieldNeg", 0, var=1)],
         "FieldAdd": [mk("FieldFull", 3), mk("FieldAdd", 0, 0), mk("FieldCast", 1)],       # attack field 1/2
         "view_first": [mk("NewArr", [1, 2]), mk("NdView", 0), mk("MkField", 0, var=1)],   # inadmissible
     }
@@ -373,7 +380,7 @@ def random_history(rng, L, n):
     r = Runner(L)
     ops = []
     names = list(OPS)
-    w = {"NewArr": 3, "NewArrRO": 1, "FieldClone": 2, "MkField": 4, "MkFieldAny": 3, "NdWrite": 4, "AnySetItem": 3, "NdIAdd": 2, "AnyIAdd": 2,
+    w = {"NewArr": 3, "NewArrRO": 1, "FieldClone": 2, "FieldNeg": 2, "MkField": 4, "MkFieldAny": 3, "NdWrite": 4, "AnySetItem": 3, "NdIAdd": 2, "AnyIAdd": 2,
          "AnyUfuncOut": 2, "NdView": 2, "AnyView": 2, "AnySame": 2, "FieldRaw": 2, "FieldVal": 2, "MkAny": 2}
     p = np.array([w.get(k, 1) for k in names], dtype=float)
     p /= p.sum()
